@@ -171,7 +171,7 @@ class Translator:
         found = []
 
         def visit(n):
-            if n.kind == "macro" and n.name in ("panic", "unreachable", "todo", "unimplemented", "assert"):
+            if n.kind == "macro" and n.name in ("panic", "unreachable", "todo", "unimplemented", "assert", "debug_assert"):
                 found.append(1)
             if n.kind in ("loop", "while"):
                 found.append(1)
@@ -718,8 +718,11 @@ class Translator:
             self.pop_scope()
         elif k == "macro" and e.name == "panic":
             self.em.w("failure")
-        elif k == "macro" and e.name in ("debug_assert", "assert"):
-            raise Untranslatable("assert")
+        elif k == "macro" and e.name in ("debug_assert", "assert") and e.args:
+            # `assert!(c, ..)` panics when `c` is false; `debug_assert!` is read the same way (it does in builds with
+            # debug assertions), so an assertion that can fail shows as a failing translated function
+            c = self.ex(e.args[0], hoist=True)
+            self.em.w(f"if ¬ ({c}) then failure")
         elif k == "assign":
             self.assign_stmt(e)
         elif k in ("mcall", "call", "macro"):
@@ -983,6 +986,10 @@ class Translator:
             p = f.path
             if p == ["Some"]:
                 return f"some {self.atom(self.ex(e.args[0], hoist))}"
+            if len(p) == 2 and p[1] == "from" and p[0] in ("usize", "u16", "u32", "u64", "u128") and len(e.args) == 1:
+                # `usize::from(x)`, `u32::from(x)`, …: `From` between unsigned integers exists only for widening
+                # conversions, which are the identity on the value
+                return self.ex(e.args[0], hoist)
             if p[-1] == "max" and len(e.args) == 2:
                 return f"max {self.atom(self.ex(e.args[0], hoist))} {self.atom(self.ex(e.args[1], hoist))}"
             if p[-1] == "min" and len(e.args) == 2:
@@ -1737,6 +1744,22 @@ class ArraySetProfile(Translator):
             return "m.vals.length"
         if e.name == "is_none" and e.recv.kind == "mcall" and e.recv.name == "checked_add" and self.is_length(e.recv.recv):
             return f"¬ (m.len + {self.atom(self.ex(e.recv.args[0], hoist))} ≤ P)"
+        # `found.map(|i| &self.values[i])` / `found.map(|i| &mut self.values[i])`: the element at a found index
+        if e.name == "map" and len(e.args) == 1 and e.args[0].kind == "closure" and len(e.args[0].params) == 1 \
+                and e.args[0].params[0].kind == "pident":
+            body = e.args[0].body
+            isref = body.kind == "ref"
+            inner = body.e if isref else body
+            pn = e.args[0].params[0].name
+            if inner.kind == "index" and self.is_values(inner.e) and inner.idx.kind == "path" and inner.idx.path == [pn]:
+                R = self.atom(self.ex(e.recv, hoist))
+                if isref and body.mut and self.cur.fn.name == "get_mut":
+                    return R          # the place is represented by its index
+                if not hoist:
+                    raise Untranslatable("indexing in a position where the bounds check cannot be hoisted")
+                t = self.fresh()
+                self.em.w(f"let {t} ← (match {R} with | some __i => (m.vals[__i]?).map some | none => some none)")
+                return t
         if e.name == "as_mut_ptr" and self.is_values(e.recv):
             return "0"
         if e.name == "add" and e.recv.kind == "path" and len(e.recv.path) == 1 and e.recv.path[0] in self.ptrs:
@@ -2398,6 +2421,10 @@ def gen_pod():
                 x = x.e
             if x.kind == "bin" and x.op in ("==", "!="):
                 return N("bin", op="!=" if x.op == "==" else "==", l=x.l, r=x.r)
+        # `c.then_some(v)` is `if c { Some(v) } else { None }`
+        if e.kind == "mcall" and e.name == "then_some" and len(e.args) == 1:
+            return N("if", cond=e.recv, then=N("block", stmts=[], tail=N("call", f=N("path", path=["Some"], generics=None), args=[e.args[0]])),
+                     els=N("block", stmts=[], tail=N("path", path=["None"], generics=None)))
         return e
 
     delegated = []
